@@ -366,6 +366,28 @@ func BackpressurePrograms() []*Program {
 			ps = append(ps, p)
 		}
 	}
+	// the same against flushes the ticker starts: a trickle of single-row batches, each older than MaxBufferedTime by the
+	// time the next one arrives, so every batch becomes a flush request of its own; with the store wedged the requests
+	// back up (one in the store, one queued, one in the actor's hands), the ingest buffer fills and callers block
+	for _, kind := range []string{"create", "update"} {
+		p := &Program{
+			Name:    "P2-timed-" + kind,
+			Cfg:     Cfg{IBS: 1, MBRows: 1000, MBTimeMs: 40},
+			Timed:   true,
+			Faults:  []Fault{{Kind: kind, Nth: 1, Mode: "wedge"}},
+			BPBound: 1 + 3*1 + 1,
+		}
+		p.Phases = append(p.Phases, []Op{{Op: "start"}})
+		var all []int
+		for k := 1; k <= 12; k++ {
+			p.Calls = append(p.Calls, rowsCall(k, "buf", 1, 1))
+			p.Phases = append(p.Phases, []Op{calls(fmt.Sprintf("c%d", k), k)}, []Op{{Op: "sleep", Ms: 230}})
+			all = append(all, k)
+		}
+		// the callers still blocked give up before the store comes back (what they would add afterwards is not backlog)
+		p.Phases = append(p.Phases, []Op{{Op: "cancelcall", Calls: all}}, []Op{{Op: "sleep", Ms: 150}})
+		ps = append(ps, p)
+	}
 	return ps
 }
 
